@@ -40,3 +40,16 @@ Example C14_example_crlf :
   Forall (fun c => c <> 13) c14_doc /\ snd (run_str c14_doc) = PDone /\ snd (run_str (crlf c14_doc)) = PDone
   /\ map fst (fst (run_str c14_doc)) = map fst (fst (run_str (crlf c14_doc))).
 Proof. split; [repeat constructor; discriminate|]. vm_compute. repeat split; reflexivity. Qed.
+
+(* ... and with the panic freedom of the string pipeline (C01_pipeline_never_panics_str) NO exception is left:
+   for every CR-free text, both substitutions give the same events with the same line and column in every span
+   and the same end. *)
+Theorem C14_crlf : forall x : list chr, nocr x ->
+  Forall2 EVR (fst (run_str x)) (fst (run_str (crlf x))) /\ PER (snd (run_str x)) (snd (run_str (crlf x))).
+Proof. exact pipeline_crlf_total. Qed.
+Print Assumptions C14_crlf.
+
+Theorem C14_cr : forall x : list chr, nocr x ->
+  Forall2 EVR (fst (run_str x)) (fst (run_str (cr x))) /\ PER (snd (run_str x)) (snd (run_str (cr x))).
+Proof. exact pipeline_cr_total. Qed.
+Print Assumptions C14_cr.
